@@ -22,7 +22,7 @@ PROP = "C19"
 RULE = ("single thread: one case = one call history (3 warm-up calls + 40 random calls, thorough: every 4th has 120) over the 30 exported SFile* functions "
         "drawn by one of 5 weight profiles; handle arguments are drawn from {live, closed, orphan (its archive was closed), live handle of another table, 0, 1, "
         "usize::MAX, live+1, live-1, next-id-to-be-issued}; names from {present in 3 spellings, absent, empty, 300 chars, (listfile)}; buffer sizes include 0, "
-        "exact fit, one short, oversize to_read. 13 scripted probe histories precede the random ones (exactness of archive close, read/seek boundaries, every "
+        "exact fit, one short, oversize to_read. 14 scripted probe histories precede the random ones (exactness of archive close, read/seek boundaries, every "
         "buffer size of the name/info calls, every function x forged handle, and the trigger predicates of calls that never return). Oracle per call: model of "
         "the handle tables (valid iff issued, right table, not closed, archive not closed) and the Rust API on the same archive file (read-only handles) or a "
         "shadow MutableArchive driven in lock-step on a byte-identical copy (mutable handles). threads: one case = one run of N threads x 160 (300) calls, checked "
@@ -212,9 +212,10 @@ def _tsan_reports(res, logdir):
         for m in TSAN_RE.finditer(text):
             blocks += 1
             kind = m.group(1).strip().replace(" ", "-")
-            seg = text[m.start():m.start() + 5000]
+            seg = text[m.start():m.start() + 60000]
             sm = re.search(r"SUMMARY: ThreadSanitizer: [^\n]* in (\S+)", seg)
-            fn = sm.group(1) if sm else "?"
+            f0 = re.search(r"#0 (\S+) ", seg)
+            fn = sm.group(1) if sm else (f0.group(1) if f0 else "?")
             fn = re.sub(r"::h[0-9a-f]{16}$", "", fn)
             fn = re.sub(r"<[^>]*>", "", fn)
             res.add_violation(f"C19|data-race|tsan|{kind}|{fn}", f"ThreadSanitizer: {kind} in {fn}", {"report": seg[:2500]},
@@ -378,7 +379,7 @@ def run(tier, seed, scratch, t0):
                 res.add_inconclusive("tsan-layer-ran-nothing")
             _merge(res, rs)
         layers["tsan"] = tsan
-        layers["miri"] = _miri_slice(res, tier, seed, scratch, 12, 13 + 100)
+        layers["miri"] = _miri_slice(res, tier, seed, scratch, 16, 13 + 100)
 
     # ---- evidence
     matrix = {}
